@@ -496,6 +496,9 @@ func checkCmd(args []string) int {
 			if f.Kind == "panic" {
 				exp = "panic:"
 			}
+			if f.Kind == "alloc" {
+				exp = "alloc:"
+			}
 			cases = append(cases, replayCase{ID: fmt.Sprintf("f%d", caseN), Harness: fn, FullHarness: j.h.Name,
 				Stream: streamToStrings(f.Stream, j.params), Params: j.params, Expect: exp, Property: prop,
 				Kind: f.Kind, Label: f.Label, Site: f.Site})
@@ -588,6 +591,8 @@ func checkCmd(args []string) int {
 		if ok {
 			if c.Kind == "panic" {
 				confirmed = strings.HasPrefix(o.Outcome, "panic:")
+			} else if c.Kind == "alloc" {
+				confirmed = strings.HasPrefix(o.Outcome, "alloc:")
 			} else {
 				confirmed = o.Outcome == c.Expect
 			}
